@@ -281,13 +281,26 @@ ADDENDA5 = {
     'C20': ' C20.HIST: top_sort in both directions observed inside histories, also on a state a returning public call left with a broken users index.',
 }
 
+ADDENDA6 = {
+    'C01': ' The dispatch tables the sibling rules read (Tseytin templates, bench rewrites) are EVALUATED by the template evaluator: closures, partial applications, callable records and tables assembled from sub-tables count; the shape rules about the evaluators (C01.APPLY) run softly under the folds.',
+    'C02': ' A copy.copy that raises on a well-formed state reached by public calls is reported (finding F36, repaired).',
+    'C05': ' The dispatch table is found by evaluating candidate dictionary expressions (a mapping from at least eight gate types to callables), whatever it is called and however it is assembled.',
+    'C06': ' C06.FIND also folds the database shortcut with a recording database (a stored circuit small enough / too large / absent, with and without fix_gate / forbid_wire); the text rules about the guard are soft under it.',
+    'C07': ' C07.BASIS: every public function of the summation module taking `basis` is instantiated with the basis spelled \'AIG\', \'aig\', GenerationBasis.AIG (same for XAIG): only gates of that basis are created. C07.ENDIAN-REL: for every public generator with a big_endian parameter the big-endian call on reversed operands returns the reversed little-endian result (every operand value, widths 1-3). The shape rules BASIS-TS / BASIS-REACH / ENDIAN are soft where these folds were instantiated.',
+    'C08': ' C08.GEN: generate_mul / generate_square instantiated for every member of their mode enumerations (widths 1 and 3, both endiannesses, every operand value); C08.ENDIAN-REL as for C07; the 48-bit squarer (the width from which add_square splits its operand) is instantiated in the quick tier as well. The registry / Karatsuba / endianness shape rules are soft under these folds.',
+    'C09': ' C09.ENDIAN-REL as for C07; the OUT-GUARD shape rule is soft under the gadget folds, which run every function with an add_outputs parameter with and without it.',
+    'C14': ' The table of bench rewrites is evaluated (closure factories and callable records count).',
+    'C16': ' The gate-level round trip steps aside when the private helpers have other parameter lists than on the pinned tree (the round trip of whole circuits decides).',
+    'C17': ' Generator functions are folded lazily (item by item), so a lookup that yields one table object updated in place per completion is decided as it behaves.',
+}
+
 def main():
     checks = []
     for p in ALL:
         if p not in CLAIMS:
             continue
         tech, text, ref = CLAIMS[p]
-        text = text + ADDENDA.get(p, '') + ADDENDA3.get(p, '') + ADDENDA4.get(p, '') + ADDENDA5.get(p, '')
+        text = text + ADDENDA.get(p, '') + ADDENDA3.get(p, '') + ADDENDA4.get(p, '') + ADDENDA5.get(p, '') + ADDENDA6.get(p, '')
         checks.append({
             'property_id': p,
             'quick_cmd': f'{PY} -m cirbo_verif check {p} --tier quick',
